@@ -7,9 +7,11 @@
 // through one-bead files); Elements getters for every symbol the library
 // knows against an embedded periodic table.
 //
-// Tolerances: identities (a->b->a, a->b->c = a->c, derived = quotient of base
-// conversions) 1e-12 relative; agreement with reference values and between
-// tables: half a unit of the 4th significant digit of the reference.
+// Tolerances: UnitConverter identities (a->b->a, a->b->c = a->c, derived =
+// quotient of base conversions) 1e-12 relative; agreement with reference
+// values and between tables: half a unit of the 4th significant digit of the
+// reference; identities among the independently tabulated conv:: constants:
+// relative 5e-5 (four significant digits), measured defect reported.
 #include "vfh.h"
 #include <fstream>
 #include <sys/stat.h>
@@ -557,10 +559,23 @@ int main(int argc, char **argv) {
     std::vector<I> is = {{"nm2bohr*bohr2nm", conv::nm2bohr * conv::bohr2nm, 1}, {"ang2bohr*bohr2ang", conv::ang2bohr * conv::bohr2ang, 1}, {"nm2ang*ang2nm", conv::nm2ang * conv::ang2nm, 1},
                          {"hrt2ev*ev2hrt", conv::hrt2ev * conv::ev2hrt, 1}, {"kcal2kj*kj2kcal", conv::kcal2kj * conv::kj2kcal, 1}, {"nm2bohr=nm2ang*ang2bohr", conv::nm2bohr, conv::nm2ang * conv::ang2bohr},
                          {"bohr2nm=bohr2ang*ang2nm", conv::bohr2nm, conv::bohr2ang * conv::ang2nm}};
+    // The conv:: constants are tabulated independently of each other: the
+    // statement asks them to agree "to at least four significant digits" with
+    // every other place encoding the same quantity (the 1e-12 identities are
+    // for UnitConverter conversions). Products / compositions of conv::
+    // constants are therefore judged at relative 5e-5; the measured defect is
+    // kept as an observation.
+    double maxdef = 0;
+    std::string maxname;
     for (auto &i : is) {
       R.eval("conv/identity"); nt(std::string("ci:") + i.name);
-      if (!ident(i.got, i.want)) R.violation(std::string("conv/identity/") + i.name, "there-and-back / composition of conv:: constants is not the identity (1e-12)", J().s("identity", i.name).d("got", i.got).d("expected", i.want).d("relative_deviation", i.got / i.want - 1));
+      double rel = std::fabs(i.got / i.want - 1);
+      if (rel > maxdef) { maxdef = rel; maxname = i.name; }
+      if (rel > 1e-12) R.counter(std::string("conv_identity_inexact_beyond_1e-12(not judged): ") + i.name);
+      if (!(rel <= 5e-5)) R.violation(std::string("conv/identity/") + i.name, "there-and-back / composition of conv:: constants deviates from the identity in the 4th significant digit or earlier (relative 5e-5)", J().s("identity", i.name).d("got", i.got).d("expected", i.want).d("relative_deviation", i.got / i.want - 1));
     }
+    R.counter("conv_identity_max_relative_defect_in_units_of_1e-12", (long long)std::llround(maxdef * 1e12));
+    R.sample(J().s("observation", "largest relative defect among the conv:: identities").s("identity", maxname).d("relative_defect", maxdef));
     // conv:: vs UnitConverter
     std::vector<C> xs = {{"bohr2nm", conv::bohr2nm, UC.convert(DU::bohr, DU::nanometers), 0}, {"nm2bohr", conv::nm2bohr, UC.convert(DU::nanometers, DU::bohr), 0}, {"ang2bohr", conv::ang2bohr, UC.convert(DU::angstroms, DU::bohr), 0},
                          {"bohr2ang", conv::bohr2ang, UC.convert(DU::bohr, DU::angstroms), 0}, {"nm2ang", conv::nm2ang, UC.convert(DU::nanometers, DU::angstroms), 0}, {"ang2nm", conv::ang2nm, UC.convert(DU::angstroms, DU::nanometers), 0},
